@@ -1187,7 +1187,9 @@ impl hb_buffer_t {
             self.idx -= count;
             self.out_len -= count;
 
-            for j in 0..count {
+            // The ranges may overlap when the out-buffer still aliases `info`
+            // (idx - out_len < count): copy backwards, like memmove.
+            for j in (0..count).rev() {
                 self.info[self.idx + j] = self.out_info()[self.out_len + j];
             }
         }
